@@ -468,3 +468,22 @@ PROPS["C09"] = dict(
                  "gRPC proxy, GP / CMA-ES samplers, n_jobs > 1"],
     witnesses={"BaseGASampler.get_parent_population:post/ok/ret0": "witnesses.f6"},
 )
+
+# technique field of the manifest: name the deciding method, including bounded stand-ins where a part is only bounded
+_TECH = ("contract-based deductive verification: VCs generated from the real Python AST by symbolic execution (pyvc), "
+         "discharged by z3 / cvc5")
+for _p, _extra in (
+        ("C01", "RDB(sqlite)/cached RDB: bounded differential stand-in against the proved in-memory storage (bounded.storage_lattice)"),
+        ("C05", "torn-tail scan and SQLite transaction boundaries: bounded stand-ins (bounded.truncate_lattice, bounded.txn_lattice)"),
+        ("C09", "whole seeded runs across storages / id offsets / split calls / PYTHONHASHSEED and copy_study: bounded stand-in (bounded.seed_lattice)"),
+        ("C13", "numpy parts (percentile mirroring, TPE/NSGA-II/QMC/Wilcoxon): bounded mirrored runs of the real code (bounded.mirror_lattice)"),
+        ("C19", "SQL stale-id query and a sweep on sqlite: bounded stand-in (bounded.heartbeat_lattice)")):
+    if "technique" not in PROPS[_p]:
+        PROPS[_p]["technique"] = _TECH + "; " + _extra + " -- labelled bounded, never counted as proved"
+for _p, _extra in (
+        ("C07", "_truncate_incomplete_log's byte scan: bounded stand-in (bounded.truncate_lattice)"),
+        ("C10", "float/Decimal arithmetic of stepped and log domains: bounded stand-in (bounded.float_lattice)"),
+        ("C11", "JSON / float / categorical round trips: bounded stand-in (bounded.float_lattice)"),
+        ("C12", "Pareto front (best_trials): bounded stand-in (bounded.hv_lattice)")):
+    if "technique" not in PROPS[_p] and PROPS[_p].get("bounded"):
+        PROPS[_p]["technique"] = _TECH + "; " + _extra + " -- labelled bounded, never counted as proved"
